@@ -127,3 +127,12 @@ package cty
 //@   trusted
 //@   requires (vals_typed vals (Slice.len vals))
 //@   ensures (=> result (vals_consistent vals (Slice.len vals)))
+//
+// Element iterators are not under contract yet: the members they yield are assumed to be well-formed
+// values (members of a well-formed value are well-formed).
+//@ func (cty.ElementIterator).Element
+//@   trusted
+//@   ensures (and (wf_deep result.0) (wf_deep result.1))
+//
+//@ func (cty.ElementIterator).Next
+//@   trusted
